@@ -40,6 +40,12 @@ func clientKey() *vlib.Key {
 
 // startFleet starts n servers named <name>-h1.. with the given Server config.
 func startFleet(r *vlib.Run, name string, n int, serverCfg map[string]interface{}, env []string, logLevel string) (*fleet, error) {
+	return startFleetDomain(r, name, n, serverCfg, env, logLevel, "")
+}
+
+// startFleetDomain: the servers are told a fully qualified host name
+// (<name>-h<i><domain>); dtail labels everything with the first component.
+func startFleetDomain(r *vlib.Run, name string, n int, serverCfg map[string]interface{}, env []string, logLevel string, domain string) (*fleet, error) {
 	f := &fleet{r: r, Key: clientKey(), User: "tester"}
 	f.Home, f.KeyFile = r.ClientHome(name, f.Key)
 	// Unless the caller configures permissions itself, every fleet runs with a
@@ -56,6 +62,7 @@ func startFleet(r *vlib.Run, name string, n int, serverCfg map[string]interface{
 	for i := 0; i < n; i++ {
 		spec := &vlib.ServerSpec{
 			Name:     fmt.Sprintf("%s-h%d", name, i+1),
+			Hostname: map[bool]string{true: fmt.Sprintf("%s-h%d%s", name, i+1, domain), false: ""}[domain != ""],
 			Server:   serverCfg,
 			Env:      env,
 			LogLevel: logLevel,
